@@ -114,7 +114,7 @@ Definition set_data_comp (t : tcomp) (spans : bool) (nrows : nat) : res dcomp :=
                      (map (fun x => [match x with
                                      | Some s => if String.eqb s ref then zcell 1 else zcell 0
                                      | None => zcell 0 end]) d)
-                     None spans)
+                     (Some [tc_name t ++ "[" ++ ref ++ "]"]) spans)
           | _, _ =>
               do cm <- code (Treatment None) spans cats;
               Ok (DC t cats (Some cm) (code_rows (cmatrix cm) (contrast_width cm) (level_codes cats d))
